@@ -32,7 +32,14 @@ dispatch = [
  {"record": "req_sketch", "function": "check_serial_version", "param": None, "kind": "compare", "on": "serial_version", "what": "serial versions", "values": [1]},
  {"record": "frequent_items_sketch", "function": "check_serial_version", "param": None, "kind": "compare", "on": "serial_version", "what": "serial versions", "values": [1]},
 ]
-spec = {"_comment": "C10 spec: documented preamble constants, writer prefixes (width, constant) and accepted legacy versions, frozen from the reviewed tree; published hash literals.",
+hd = {}
+for name in L.HASH_DIGEST_FUNCS:
+    c = [f for f in fns.values() if f["qname"].split("<")[0].endswith(name)]
+    if c:
+        hd[name] = L.ast_digest(c[0])[0]
+    else:
+        print("digest fn not found:", name)
+spec = {"hash_digests": hd, "flag_terms": L.flag_terms_table(F), "_comment": "C10 spec: documented preamble constants, writer prefixes (width, constant) and accepted legacy versions, frozen from the reviewed tree; published hash literals.",
         "constants": L.layout_constants(F), "writer_prefixes": L.writer_prefixes(F), "dispatch": dispatch, "hash_literals": hl}
 json.dump(spec, open(os.path.join(V, "spec", "layouts.json"), "w"), indent=1, sort_keys=True)
 print(len(spec["constants"]), "constants;", len(spec["writer_prefixes"]), "writers;", len(hl), "hash functions")
